@@ -7,6 +7,8 @@ from blockutil import Trace, HANDLER
 from rules.c13 import BV, bv_invariant
 from rules.c05 import REG
 
+import os
+DOMAIN_ROOM = 28   # the property's domain: budget >= non-payload overhead + 28
 LEVEL = "other"
 EXPLANATION = ("the negotiation function (found as the block_handler function calling core::cmp::min) is analysed with "
                "symbolic arguments: the bound is budget - ((message size + R) - payload size) computed with "
@@ -14,10 +16,18 @@ EXPLANATION = ("the negotiation function (found as the block_handler function ca
                "size handed to BlockValue::new is min(client size(), bound), so never above the client's, and equals "
                "the client's when it is <= the bound; without one it is the bound itself and no block is produced "
                "iff payload < bound; R >= 2 x (option header + one extended-delta byte + maximal block value length) + "
-               "payload marker, the value length being derived from the block number's type")
-NOT_DECIDED = ("Not decided: the power-of-two rounding result and the end-to-end inequality 'encodes within the budget' "
-               "for every budget (it follows from C10.1-3 and C13 only on paper).")
-ASSUMPTIONS = ["the message size argument of the negotiation is the size of a message held in memory (<= isize::MAX) and includes its payload"]
+               "payload marker, the value length being derived from the block number's type.  C10.7: BlockValue::new is analysed with "
+               "the first-match property of find (the index before the first match fails the predicate): every Ok result has "
+               "16 <= size() <= requested size for requested >= 16.  C10.5: at both call sites the negotiation receives the measured "
+               "size of the message at hand (to_bytes of that very message + its payload length), its payload length and the "
+               "configured budget.  C10.6: the handlers are traced with BlockValue::new replaced by the C10.7 contract; on every "
+               "answering path, under the stated domain budget >= overhead + 28, the outgoing payload (one block / unfragmented body) "
+               "resp. the acknowledged upload block size + measured non-payload size + reserve <= budget is entailed")
+NOT_DECIDED = ("Not decided: that the 12-byte reserve is also enough for what the *application* adds to the reply after "
+               "interception (nothing, by the handler's contract); exact equality 'the client's size is used when it fits with 32 "
+               "bytes to spare' beyond min(client, bound) + the rounding contract.")
+ASSUMPTIONS = ["the message size argument of the negotiation is the size of a message held in memory (<= isize::MAX) and includes its payload (C10.5 checks the call sites)",
+               "stated domain: budget >= non-payload overhead + 28; application replies carry no Block2 option of their own"]
 
 
 def check(env, rep, tier):
@@ -45,6 +55,8 @@ def check(env, rep, tier):
         rep.ob("C10.3", "reserve>=worst-case", R >= need,
                "the reserve of %d bytes is below the worst case the handler adds: 2 x (header byte + extended delta byte + %d value bytes) + payload marker = %d" % (R, w, need),
                sample={"rule": "C10.3", "reserve": R, "needed": need, "value_bytes": w})
+        check_rounding(prog, rep)
+        check_sites(prog, rep, R)
         # ---- C10.1 / C10.2 / C10.4 by symbolic evaluation of the negotiation function
         for mode in ("client", "none"):
             I = new_interp(prog)
@@ -130,3 +142,256 @@ def check(env, rep, tier):
                         okn = False
                 rep.ob("C10.2", "no-client", okn and bool(nofrag),
                        "without a client Block option the reply is not fragmented exactly when payload >= bound, with block size = bound", site)
+
+
+def _bv_size(I, prog, s, bv):
+    """value of BlockValue::size() for a tracked BlockValue, computed in state s (returns (state, IntV) or None)"""
+    size_b = find_body(prog, BV + "::size")
+    if size_b is None or not isinstance(bv, StructV):
+        return None
+    I.nsym += 1
+    key = ("h", "bvtmp*%d" % I.nsym)
+    s.cells[key] = bv
+    saved = I.recording
+    I.recording = False
+    try:
+        r2 = I.exec_body(size_b, (), [RefV(Place(key), False)], s, None, "size")
+    finally:
+        I.recording = saved
+    if len(r2) != 1 or not isinstance(r2[0][1], IntV):
+        return None
+    r2[0][0].cells.pop(key, None)
+    return r2[0]
+
+
+def check_rounding(prog, rep):
+    """C10.7: BlockValue::new(_, _, size) with size >= 16 yields a value whose size() is a power of two with
+    16 <= size() <= size (uses the first-match property of `find`: the index before the first match fails the predicate)"""
+    new = find_body(prog, BV + "::new")
+    if new is None:
+        rep.missing("C10.7", BV + "::new")
+        return
+    I = new_interp(prog)
+    I.no_join_bodies.add(new["id"])
+    I.no_join_prefixes = ("block_handler::block_value",)
+    st = State()
+    args = [I.mat(st, prog.ty(new["locals"][i + 1]["ty"]), "a%d" % i) for i in range(new["arg_count"])]
+    sizes = [i for i in range(new["arg_count"]) if prog.types[new["locals"][i + 1]["ty"]]["s"] == "usize"]
+    if len(sizes) != 2:
+        rep.missing("C10.7", "signature (usize, bool, usize) of BlockValue::new")
+        return
+    req = args[sizes[1]]
+    st.add_fact(req.aff - 16)
+    I, res = run(prog, new, args=args, st=st, I=I)
+    n_ok, bad = 0, []
+    for s, rv in res:
+        if not (isinstance(rv, EnumV) and 0 in rv.variants):
+            continue
+        r = _bv_size(I, prog, s, rv.variants[0].fields[0])
+        if r is None:
+            bad.append("size of the constructed value not tracked")
+            continue
+        n_ok += 1
+        s2, sz = r
+        pow2 = sz.aff.is_const() and sz.aff.c & (sz.aff.c - 1) == 0 or (sz.aff.single() and (I.syminfo.get(sz.aff.single()[0]) or ("",))[0] in ("shl", "pure"))
+        if not s2.entails(req.aff - sz.aff):
+            bad.append("size() can exceed the requested size")
+        if not s2.entails(sz.aff - 16):
+            bad.append("size() can be below 16")
+    site = {"file": new["span"]["f"], "line": new["span"]["l"], "fn": new["path"]}
+    rep.ob("C10.7", "rounding", not bad and n_ok >= 1,
+           "BlockValue::new: %s (success paths: %d)" % ("; ".join(sorted(set(bad))) or "no success path", n_ok), site,
+           sample={"rule": "C10.7", "success_paths": n_ok})
+
+
+def check_sites(prog, rep, R):
+    """C10.5 / C10.6: at both call sites the negotiation is fed the measured size of the message at hand, its payload
+    length and the configured budget; and on every path that answers, block size (or unfragmented payload) +
+    measured non-payload size + reserve <= budget"""
+    import blockutil
+    from blockutil import Trace
+    negs = blockutil.fns_calling(prog, "core::cmp::min")
+    if len(negs) != 1:
+        return
+    neg = negs[0]
+    tys = [prog.types[neg["locals"][i + 1]["ty"]]["s"] for i in range(neg["arg_count"])]
+    ui = [i for i, t in enumerate(tys) if t == "usize"]
+    if len(ui) != 3:
+        return
+    new_b = find_body(prog, BV + "::new")
+
+    i_num, i_more, i_szx = (blockutil.idx(prog, BV, n) for n in ("num", "more", "size_exponent"))
+    nargs = [i for i in range(new_b["arg_count"]) if prog.types[new_b["locals"][i + 1]["ty"]]["s"] == "usize"] if new_b is not None else []
+
+    def setup_common(tr, I, st):
+        # BlockValue::new is replaced by its contract, which C10.7 establishes on the real body:
+        # Ok(v) with v.num = num <= 65535, v.more = more, v.size_exponent <= 7 and 16 <= v.size() (<= size when size >= 16)
+        def m_new(I_, s_, call):
+            from summaries import mk_ok, mk_err
+            if len(nargs) != 2 or None in (i_num, i_more, i_szx):
+                return None
+            num, size = call.args[nargs[0]], call.args[nargs[1]]
+            more = [a for k, a in enumerate(call.args) if k not in nargs][0]
+            if not (isinstance(num, IntV) and isinstance(size, IntV)):
+                return None
+            out = []
+            e_ = s_.copy()
+            out.append((e_, mk_err(I_.mat(e_, call.dest_ty[2][1] if call.dest_ty and len(call.dest_ty[2]) > 1 else None, "err"), call.dest_ty)))
+            for big in (True, False):
+                s2 = s_.copy()
+                if big:
+                    s2.add_fact(size.aff - 16)
+                else:
+                    s2.add_fact(Aff.const(15) - size.aff)
+                s2.add_fact(Aff.const(65535) - num.aff)
+                if s2.dead:
+                    continue
+                szx = I_.fresh_int(s2, "szx", (8, False), 0, 7)
+                fields = [None, None, None]
+                fields[i_num] = IntV(num.aff, (16, False))
+                fields[i_more] = more
+                fields[i_szx] = szx
+                bv = StructV(fields)
+                r = _bv_size(I_, prog, s2, bv)
+                if r is None:
+                    return None
+                s3, sz = r
+                s3.add_fact(sz.aff - 16)
+                if big:
+                    s3.add_fact(size.aff - sz.aff)
+                else:
+                    s3.add_eq(sz.aff, Aff.const(16))
+                if s3.dead:
+                    continue
+                s3.cells[("gh", "bvsize")] = sz
+                out.append((s3, mk_ok(bv, call.dest_ty)))
+            return out
+        if new_b is not None:
+            I.extra_models[new_b["path"]] = m_new
+
+    def enc_of(I, s, place):
+        for x in s.bounds:
+            inf = I.syminfo.get(x, ("",))
+            if inf[0] == "len" and len(inf) > 2 and inf[1] == "encoded" and inf[2] == place:
+                yield x
+
+    # ------------------------------------------------ Block2: intercept_response
+    def setup2(tr, I, st):
+        setup_common(tr, I, st)
+
+        def m_get_option(I_, s_, call):
+            # stated domain: application replies do not carry a Block2 option of their own
+            a = call.args[0]
+            o = call.args[1]
+            if isinstance(a, RefV) and a.place == tr.resp_msg and isinstance(o, EnumV) and len(o.variants) == 1 \
+                    and prog.adts["packet::CoapOption"]["variants"][next(iter(o.variants))]["name"] == "Block2":
+                from summaries import mk_none
+                return [(s_, mk_none(call.dest_ty))]
+            return None
+        I.extra_models["packet::Packet::get_option"] = m_get_option
+    tr = Trace(prog, "intercept_response", setup=setup2)
+    if not tr.ok:
+        rep.missing("C10.5", "BlockHandler::intercept_response")
+    else:
+        I = tr.I
+        site = {"file": tr.body["span"]["f"], "line": tr.body["span"]["l"], "fn": tr.body["path"]}
+        hi = blockutil.idx(prog, "block_handler::BlockHandler", "config")
+        ci = blockutil.idx(prog, "block_handler::BlockHandlerConfig", "max_total_message_size")
+        cfg_place = tr.args[0].place.extend(("f", hi), ("f", ci)) if isinstance(tr.args[0], RefV) and hi is not None and ci is not None else None
+        negs_ev = [e for e in tr.events if e[0] == "negotiate"]
+        ok = bool(negs_ev) and cfg_place is not None
+        for _, a, s, sitec in negs_ev:
+            msg, pay, bud = (a[i] for i in ui)
+            p0 = tr.resp_payload0
+            encs = list(enc_of(I, s, tr.resp_msg))
+            cfgv = I.read(s, cfg_place) if cfg_place is not None else None
+            good = isinstance(pay, IntV) and isinstance(p0, VecV) and pay.aff == p0.len
+            good = good and isinstance(msg, IntV) and any(msg.aff == Aff.sym(e) + p0.len for e in encs)
+            good = good and isinstance(bud, IntV) and isinstance(cfgv, IntV) and bud.aff == cfgv.aff
+            ok = ok and good
+        rep.ob("C10.5", "site|response", ok,
+               "intercept_response does not negotiate with (measured size of this response, its payload length, config.max_total_message_size)", site,
+               sample={"rule": "C10.5", "site": "response", "negotiate_calls": len(negs_ev)})
+        n, bad = 0, 0
+        for s, rv in tr.res:
+            ret = tr.ret_kind(rv)
+            if "err" in ret:
+                continue
+            n += 1
+            pl = I.read(s, tr.resp_msg.extend(("f", tr.P["payload"])))
+            cfgv = I.read(s, cfg_place) if cfg_place is not None else None
+            encs = list(enc_of(I, s, tr.resp_msg))
+            fits = isinstance(pl, VecV) and isinstance(cfgv, IntV) and bool(encs)
+            if fits:
+                fits = False
+                for e in encs:
+                    s2 = s.copy()
+                    s2.add_fact(cfgv.aff - Aff.sym(e) - DOMAIN_ROOM)    # stated domain: budget >= overhead + 28
+                    if s2.dead or s2.entails(cfgv.aff - Aff.sym(e) - R - pl.len):
+                        fits = True
+            if not fits:
+                bad += 1
+                if os.environ.get("VERIF_DEBUG_C10"):
+                    print("RESP path not shown:", sorted(k[1] for k in s.ghost if isinstance(k, tuple) and k[0] == "inj"), ret, pl, encs, s.cells.get(("gh", "bvsize")))
+        rep.ob("C10.6", "fits|response", bad == 0 and n >= 2,
+               "intercept_response answers on %d of %d paths without the outgoing payload (one block, or the whole body when it is left "
+               "unfragmented) + measured non-payload size + %d-byte reserve being shown <= the budget" % (bad, n, R), site,
+               sample={"rule": "C10.6", "site": "response", "paths": n, "not_shown": bad})
+    # ------------------------------------------------ Block1: the upload handler
+    cands = blockutil.fns_calling(prog, "block_handler::extending_splice")
+    if len(cands) != 1:
+        return
+    body = cands[0]
+    req_arg = None
+    budget_i = None
+    for i in range(body["arg_count"]):
+        ts = prog.types[body["locals"][i + 1]["ty"]]["s"]
+        if "request::CoapRequest" in ts:
+            req_arg = i
+        if ts == "usize":
+            budget_i = i
+    if req_arg is None or budget_i is None:
+        rep.missing("C10.5", "request / budget arguments of %s" % body["path"])
+        return
+    tr = Trace(prog, None, body=body, req_arg=req_arg, setup=setup_common)
+    I = tr.I
+    site = {"file": body["span"]["f"], "line": body["span"]["l"], "fn": body["path"]}
+    req_msg = tr.req_payload_place.parent() if hasattr(tr.req_payload_place, "parent") else Place(tr.req_payload_place.key, tr.req_payload_place.proj[:-1])
+    budget = tr.args[budget_i]
+    negs_ev = [e for e in tr.events if e[0] == "negotiate"]
+    ok = bool(negs_ev)
+    for _, a, s, sitec in negs_ev:
+        msg, pay, bud = (a[i] for i in ui)
+        p0 = tr.req_payload0
+        encs = list(enc_of(I, s, req_msg))
+        good = isinstance(pay, IntV) and isinstance(p0, VecV) and pay.aff == p0.len
+        good = good and isinstance(msg, IntV) and any(msg.aff == Aff.sym(e) + p0.len for e in encs)
+        good = good and isinstance(bud, IntV) and isinstance(budget, IntV) and bud.aff == budget.aff
+        ok = ok and good
+    rep.ob("C10.5", "site|request", ok,
+           "the upload handler does not negotiate with (measured size of this request, its payload length, the budget it was given)", site,
+           sample={"rule": "C10.5", "site": "request", "negotiate_calls": len(negs_ev)})
+    n, bad = 0, 0
+    for s, rv in tr.res:
+        marks = set(k[1] for k in s.ghost if isinstance(k, tuple) and k[0] == "inj")
+        if not (marks & {"add_option_as:Block1", "add_option:Block1"}) or "err" in tr.ret_kind(rv):
+            continue
+        n += 1
+        sz = s.cells.get(("gh", "bvsize"))
+        encs = list(enc_of(I, s, req_msg))
+        fits = isinstance(sz, IntV) and isinstance(budget, IntV) and bool(encs)
+        if fits:
+            fits = False
+            for e in encs:
+                s2 = s.copy()
+                s2.add_fact(budget.aff - Aff.sym(e) - DOMAIN_ROOM)
+                if s2.dead or s2.entails(budget.aff - Aff.sym(e) - R - sz.aff):
+                    fits = True
+        if not fits:
+            bad += 1
+            if os.environ.get("VERIF_DEBUG_C10"):
+                print("REQ path not shown:", sorted(marks), tr.ret_kind(rv), sz, encs)
+    rep.ob("C10.6", "fits|request", bad == 0 and n >= 2,
+           "the upload handler acknowledges a block size on %d of %d paths without size + measured non-payload size of this request + "
+           "%d-byte reserve being shown <= the budget (the client's next block of that size need not fit)" % (bad, n, R), site,
+           sample={"rule": "C10.6", "site": "request", "paths": n, "not_shown": bad})
